@@ -242,3 +242,38 @@ def rule_sha_padding(chk, P, prefix='P'):
         p4.check(op == '>=', '%s@%s' % (f.name, (t.get('loc') or '').split('/')[-1]), t.get('loc') or f.loc,
                  '%s decides on the extra padding block with `%s %s blk_size - pad_size`; the tail plus marker plus length field no longer fit '
                  'from tail == blk_size - pad_size on (`>=`)' % (f.name, other, op))
+
+
+DIGEST_WORDS = {1: 5, 224: 7, 256: 8, 384: 6, 512: 8}      # FIPS 180-4: words of the (truncated) digest
+
+
+def rule_digest_words(chk, P, rid='P5'):
+    """the C routines that write a digest out copy exactly the number of words FIPS 180-4 gives for the selected SHA variant: under
+    `sha_type == K` the word count handed to the byte-swapping copy is DIGEST_WORDS[K] (SHA-224 writes 7 words, not the 8 of SHA-256)"""
+    from . import callctx
+    r = chk.rule(rid, 'under `sha_type == K` a digest is written out with the word count of that SHA variant (1:5, 224:7, 256:8, 384:6, 512:8): '
+                      'a count copied from the sibling arm writes past a truncated digest', floor=8)
+    seen = set()
+    for tu in P.tus():
+        for f in P.funcs(tu):
+            if (f.name, f.loc) in seen:
+                continue
+            seen.add((f.name, f.loc))
+            if not any(p['name'] == 'sha_type' for p in (f.raw.get('params') or [])):
+                continue
+            dom = f.dominators()
+            with guards.in_function(f):
+                for bid, b in f.blocks.items():
+                    for ev in b['ev']:
+                        if ev['k'] != 'call' or not re.search(r'copy_bswap\d_array', ev['e'].get('fn') or ''):
+                            continue
+                        a = ev['e'].get('a', [])
+                        if len(a) < 3 or cf.evalc(a[2]) is None:
+                            continue
+                        ctx = callctx._full_ctx(f, dom, bid)
+                        ks = [int(m.group(1)) for c in ctx for m in [re.match(r'^sha_type == (\d+)$', c)] if m]
+                        if len(ks) != 1 or ks[0] not in DIGEST_WORDS:
+                            continue
+                        n = int(cf.evalc(a[2]))
+                        r.check(n == DIGEST_WORDS[ks[0]], '%s:%d' % (f.name, ks[0]), ev['loc'],
+                                '%s writes %d digest words for sha_type %d; the digest of that variant has %d words' % (f.name, n, ks[0], DIGEST_WORDS[ks[0]]))
